@@ -1,6 +1,6 @@
 /-
 C10, ghost non-interference, part 4: the whole controller pass.  `reconcilePhases`,
-`teardownPhases`, `activePhases`, `revisionStep`, `deletionOrArchival`, `reconcile` of the
+`teardownPhases`, `activePhasesCore`, `revisionStep`, `deletionOrArchival`, `reconcile` of the
 ObjectSet controller and `reconcilePhaseCtl` of the ObjectSetPhase controller map ghost-equal
 systems to ghost-equal systems and return the same result (for a `Remotes` record that respects
 ghost equality, as `Pko.Model.Remote.remotes` does).  Core Lean only.
@@ -128,10 +128,10 @@ theorem afterPhases_ghost (rm : Remotes) (hrm : RespectsGhost rm) (mem : OSet) (
   · exact h
 
 /-- `objectSetPhasesReconciler.Reconcile` + the tail of the pass does not read the ghost state. -/
-theorem activePhases_ghost (cfg : Cfg) (rm : Remotes) (hrm : RespectsGhost rm) (mem : OSet)
+theorem activePhasesCore_ghost (cfg : Cfg) (rm : Remotes) (hrm : RespectsGhost rm) (mem : OSet)
     {s s' : Sys} (h : GhostEqS s s') :
-    RelS (activePhases cfg rm s mem) (activePhases cfg rm s' mem) := by
-  simp only [activePhases]
+    RelS (activePhasesCore cfg rm s mem) (activePhasesCore cfg rm s' mem) := by
+  simp only [activePhasesCore]
   split
   · exact statusFromError_ghost mem _ h
   · rw [lookupPrev_ghost h mem]
@@ -152,6 +152,22 @@ theorem activePhases_ghost (cfg : Cfg) (rm : Remotes) (hrm : RespectsGhost rm) (
       | collision => exact statusFromError_ghost _ _ h2
       | other => exact RelS.mk' h2 _
     | ok x => exact finish_ghost _ _ h2
+
+
+/-- the pause hand-over at the head of the pass (fix C09-b) does not read the ghost state. -/
+theorem beforePhases_ghost (rm : Remotes) (hrm : RespectsGhost rm) (mem : OSet)
+    {w w' : World} (h : GhostEq w w') : GhostEq (beforePhases rm mem w) (beforePhases rm mem w') := by
+  unfold beforePhases
+  split
+  · exact foldl_sync_ghost rm hrm mem _ h
+  · exact h
+
+theorem activePhases_ghost (cfg : Cfg) (rm : Remotes) (hrm : RespectsGhost rm) (mem : OSet)
+    {s s' : Sys} (h : GhostEqS s s') :
+    RelS (activePhases cfg rm s mem) (activePhases cfg rm s' mem) := by
+  unfold activePhases
+  exact activePhasesCore_ghost cfg rm hrm mem
+    ⟨beforePhases_ghost rm hrm mem h.w, h.sets, h.setEvents, h.freed, h.setWrites, h.setEnv, h.slices, h.scopeOv, h.od⟩
 
 /-- `revisionReconciler.Reconcile` does not read the ghost state. -/
 theorem revisionStep_ghost (mem : OSet) {s s' : Sys} (h : GhostEqS s s') :
